@@ -255,6 +255,28 @@ def _verdicts(fn, case, ctx):
         raise
 
 
+_PYCOV = {}
+
+
+def _start_pycov():
+    """tools/coverage.py --py: record which lines of the pure-Python implementation run (sys.settrace,
+    restricted to BTrees/*.py of the build directory)"""
+    def local(frame, event, arg):
+        if event == 'line':
+            _PYCOV[frame.f_code.co_filename].add(frame.f_lineno)
+        return local
+
+    def tracer(frame, event, arg):
+        fn = frame.f_code.co_filename
+        if '/BTrees/' in fn and '/tests/' not in fn:
+            if fn not in _PYCOV:
+                _PYCOV[fn] = set()
+            _PYCOV[fn].add(frame.f_lineno)
+            return local
+        return None
+    sys.settrace(tracer)
+
+
 def worker_main(argv):
     # argv: pid shardfile outfile journal tier seed
     pid, shardfile, outfile, journal, tier, seed = argv[:6]
@@ -263,6 +285,9 @@ def worker_main(argv):
     sys.setrecursionlimit(10000)
     with open(shardfile) as f:
         shard = json.load(f)
+    pycov = os.environ.get('VERIF_PYCOV')
+    if pycov:
+        _start_pycov()
     ctx = Ctx(pid, shard, journal, tier, int(seed))
     out = {}
     try:
@@ -291,6 +316,10 @@ def worker_main(argv):
         json.dump(out, f, default=repr)
     os.replace(tmp, outfile)
     sys.stdout.flush()
+    if pycov:
+        sys.settrace(None)
+        with open(os.path.join(pycov, '%d.json' % os.getpid()), 'w') as f:
+            json.dump({k: sorted(v) for k, v in _PYCOV.items()}, f)
     if os.environ.get('VERIF_COV'):
         sys.exit(3 if 'error' in out else 0)       # normal exit: lets gcov write its counters
     os._exit(3 if 'error' in out else 0)
